@@ -16,7 +16,8 @@ VARIABLES l,      \* position in the trace
 NoFirst == [set |-> FALSE]
 ScOf(j) == [prov |-> [i \in 1..Len(j.prov) |-> [ty |-> j.prov[i].ty, named |-> j.prov[i].named, q |-> j.prov[i].q]],
             pts |-> [i \in 1..Len(j.pts) |-> [kind |-> j.pts[i].kind, tag |-> j.pts[i].tag, byName |-> j.pts[i].byName,
-                                              q |-> ToSet(j.pts[i].q), hasQ |-> j.pts[i].hasQ, req |-> j.pts[i].req, fn |-> j.pts[i].fn, ret |-> ToSet(j.pts[i].ret)]]]
+                                              q |-> ToSet(j.pts[i].q), hasQ |-> j.pts[i].hasQ, req |-> j.pts[i].req, fn |-> j.pts[i].fn, ret |-> ToSet(j.pts[i].ret)]],
+            preset |-> j.preset]
 TraceScenarios == {ScOf(Trace[1].sc)}
 E == Trace[l]
 IsEv(name) == l <= Len(Trace) /\ E.ev = name /\ l' = l + 1
@@ -30,7 +31,7 @@ TEnd == /\ IsEv("end")
 TReset == /\ IsEv("scenario") /\ phase = "done"
           /\ LET s == ScOf(E.sc) IN
              /\ sc' = s /\ inj' = [i \in 1..Len(s.pts) |-> <<>>] /\ phase' = "collect"
-             /\ status' = "run" /\ res' = [i \in 1..Len(s.pts) |-> <<>>]
+             /\ status' = "run" /\ res' = [i \in 1..Len(s.pts) |-> Untouched(s)]
 TraceInit == l = 2 /\ Init /\ first = NoFirst
 TraceNext == (TCollected \/ TFiltered \/ TEnd \/ TReset) /\ UNCHANGED first
 TraceSpec == TraceInit /\ [][TraceNext]_<<vars, l, first>>
@@ -43,7 +44,7 @@ MStep ==
   /\ IF E.ev = "scenario"
      THEN LET s == ScOf(E.sc) IN
           /\ sc' = s /\ inj' = [i \in 1..Len(s.pts) |-> <<>>] /\ phase' = "collect"
-          /\ status' = "run" /\ res' = [i \in 1..Len(s.pts) |-> <<>>]
+          /\ status' = "run" /\ res' = [i \in 1..Len(s.pts) |-> Untouched(s)]
      ELSE /\ UNCHANGED sc
           /\ inj' = IF E.ev \in {"collected", "filtered"} THEN AsFun(E.inj) ELSE inj
           /\ phase' = CASE E.ev = "collected" -> "filter" [] E.ev = "filtered" -> "inject" [] OTHER -> "done"
@@ -60,9 +61,9 @@ M_C10_SameOutcome ==
   (phase = "done" /\ first.set /\ first.sc = sc) =>
      /\ status = first.status
      /\ status = "ok" => \A i \in 1..NP :
-           IF IsSlice(pts[i]) THEN SeqSet(res[i]) = SeqSet(first.res[i])
+           IF IsSlice(pts[i]) \/ IsArr(pts[i]) THEN SeqSet(res[i]) = SeqSet(first.res[i])
            ELSE \/ res[i] = first.res[i]
                 \/ (Cardinality(TieSet(pts[i])) > 1 /\ SeqSet(res[i]) \subseteq TieSet(pts[i]) /\ Len(res[i]) = 1)
 \* observable form of soundness that does not depend on status: whatever is in a field is compatible
-M_FieldsSound == \A i \in 1..NP : \A p \in SeqSet(res[i]) : p \in Prov /\ p # H /\ Compat([pts[i] EXCEPT !.tag = "wire"], pop[p])
+M_FieldsSound == \A i \in 1..NP : \A p \in SeqSet(R(i)) : p \in Prov /\ p # H /\ Compat([pts[i] EXCEPT !.tag = "wire"], pop[p])
 =============================================================================
